@@ -296,6 +296,28 @@ func C16(p *Prog, r *Run) {
 		r.epochPipeline(true)
 	})
 
+	r.Rule("C16.10", "the babies cross the goroutine boundary as bytes (Organism.MarshalBinary in the goroutine, UnmarshalBinary in the collector): what the collector adds to the population is what the goroutine built only if the plain genome encoding and the organism header restore every genetic field - including the out node of a self-loop gene and the id-based lookups - so the sequential executor's guarantees carry over (obligations shared with C15.0, C15.1, C15.3, C15.6, C15.12, and C15.10 for the organism decoder; the YAML codec is not on this path)", func() {
+		sub := NewRun(p, "C15", r.Tier)
+		C15(p, sub)
+		want := map[string]bool{"C15.0": true, "C15.1": true, "C15.3": true, "C15.6": true, "C15.12": true, "C15.10": true, "setup": true}
+		n := 0
+		for _, o := range sub.Obs {
+			if !want[o.Rule] {
+				continue
+			}
+			lc := strings.ToLower(o.Construct)
+			if strings.Contains(lc, "yaml") {
+				continue
+			}
+			if o.Rule == "C15.10" && !strings.Contains(o.Construct, "Organism.UnmarshalBinary") {
+				continue
+			}
+			r.add(o.Status, o.Rule+":"+o.Construct, o.Pos, o.Detail, o.Path)
+			n++
+		}
+		r.Floor("wire obligations shared with C15", n, 10)
+	})
+
 	r.Rule("C16.9", "the spawner is one more concurrent party: from the first go statement until wg.Wait returns, ParallelPopulationEpochExecutor.reproduce (and whatever it calls there) stores nothing into memory reachable from its arguments or globals and touches the innovation list / the counters only under the mutex / atomically. Necessary: nothing orders these instructions against the goroutines already running, so such a store races with their reads of the species, organisms and population", func() {
 		r.c16SpawnerWindow(par, gos, innovF)
 	})
